@@ -101,7 +101,12 @@ class FatIO(io.RawIOBase):
         if self.__cindex > prev_index:
             fp = self.fs.get_cluster_chain(self.__cpos)
             for _ in range(0, self.__cindex - prev_index + 1):
-                self.__cpos = next(fp)
+                try:
+                    self.__cpos = next(fp)
+                except StopIteration:
+                    raise PyFATException("Cluster chain of file is shorter "
+                                         "than its size, cannot access "
+                                         "file", errno=errno.EIO)
 
         return self.__bpos
 
@@ -157,8 +162,8 @@ class FatIO(io.RawIOBase):
 
             chunks = b"".join(chunks)
             if len(chunks) != size:
-                raise RuntimeError("Read a different amount of data "
-                                   "than was requested.")
+                raise PyFATException("Read a different amount of data "
+                                     "than was requested.", errno=errno.EIO)
             return chunks
 
     def readinto(self, __buffer: bytearray) -> Optional[int]:
